@@ -57,6 +57,18 @@ let show_expected = function
   | Some j -> Printf.sprintf "fail at depth %d" (int_of_n (N.of_nat j))
   | None -> "success"
 
+(* the first depth <= k at which NO execution satisfies the constraints at every step (explicit state, the
+   fronts of Model.bmc_from): with check_constraints = true and no reachable bad state before, bmc trips
+   assert_eq!(res, Sat, "Found unsatisfiable constraints in cycle d") there (C02_bmc_full_exact) *)
+let constraints_dead_at (sy : sys) (k : int) : int option =
+  let rec go front d =
+    match List.filter (constraints_hold sy) front with
+    | [] -> Some d
+    | live ->
+        if d >= k then None
+        else go (List.concat_map (with_inputs sy) (dedup_vals (List.concat_map (succs sy) live))) (d + 1) in
+  go (initial_front sy) 0
+
 let handle (x : Sexp.t) : string =
   let id, fs = case_fields x in
   let sy = sys_of_case fs in
@@ -80,6 +92,8 @@ let handle (x : Sexp.t) : string =
              (Printf.sprintf "bmc_spec: original %s, simplified %s" (show_expected expected) (show_expected e2))
      | None -> ());
     let n_runs = ref 0 and n_notrun = ref 0 and n_tie = ref 0 in
+    let n_cc = ref 0 and n_cc_panic = ref 0 in
+    let dead = lazy (constraints_dead_at sy k) in
     let wit_diff = ref None in
     List.iter (fun r ->
         let the_sys = if r.r_simp = "simplified" then (match simp_sy with Some s -> s | None -> sy) else sy in
@@ -89,11 +103,22 @@ let handle (x : Sexp.t) : string =
             | Some c -> c
             | None -> (match script_defect the_sys nm k with Some c -> c | None -> "") in
           (cls, Printf.sprintf "%s: bmc_spec says %s, bmc returned %s" (run_tag r) (show_expected expected) what) in
+        let cc = contains r.r_mode "+cc" in
+        if cc then incr n_cc;
         match r.r_result with
         | Sexp.List [Sexp.Atom "notrun"; _] -> incr n_notrun
         | Sexp.List [Sexp.Atom "success"] ->
             incr n_runs;
             if expected <> None then set_fail "verdict:missed-counterexample" (snd (mismatch "Success"))
+            else if cc then (match Lazy.force dead with
+                | Some d -> set_fail "verdict:check-constraints-success-although-constraints-unsatisfiable"
+                              (Printf.sprintf "%s: no execution of %d steps satisfies the constraints, bmc with check_constraints returned Success" (run_tag r) d)
+                | None -> ())
+        | Sexp.List [Sexp.Atom "panic"; m] when cc && expected = None && Lazy.force dead <> None
+                                                && contains (Sexp.atom m) "Found unsatisfiable constraints"
+                                                && contains (Sexp.atom m) (Printf.sprintf "in cycle %d" (match Lazy.force dead with Some d -> d | None -> -1)) ->
+            (* the documented assert_eq! of check_constraints, at the step the model says *)
+            incr n_runs; incr n_cc_panic
         | Sexp.List [Sexp.Atom "unknown"] ->
             incr n_runs; set_fail "verdict:unknown" (snd (mismatch "Unknown"))
         | Sexp.List (Sexp.Atom "fail" :: w :: rest) ->
@@ -140,7 +165,8 @@ let handle (x : Sexp.t) : string =
       | Some d -> Registry.result ~id ~status:"diff" ~key:"loop-differs-from-model" ~detail:d ()
       | None ->
         Registry.result ~id ~status:"ok" ~key:(match expected with Some _ -> "reachable" | None -> "unreachable")
-          ~detail:(Printf.sprintf "%s; %d runs agree, %d not run; %d witnesses equal to the model's get_witness" (show_expected expected) !n_runs !n_notrun !n_tie) ()
+          ~detail:(Printf.sprintf "%s; %d runs agree, %d not run; %d witnesses equal to the model's get_witness; %d runs with check_constraints, %d of them ended in the assert_eq! panic the model predicts (constraints unsatisfiable %s)" (show_expected expected) !n_runs !n_notrun !n_tie !n_cc !n_cc_panic
+                     (match Lazy.force dead with Some d -> Printf.sprintf "from step %d" d | None -> "at no step within the bound")) ()
   end
 
 let () = Registry.register "C02" handle
